@@ -1188,4 +1188,270 @@ theorem inv_exec {limit : Nat} {tag : Nat → Nat} {d0 : Dir} {sched : List Nat}
 
 end FS
 
+/-! ### readers-writer lock -/
+namespace RW
+
+def todoW : TS σ → List (σ → σ)
+  | .writing todo _ => todo
+  | _ => []
+
+/-- the updates the current writer (if any) still has to apply -/
+def pend (ts : List (TS σ)) : List (σ → σ) := ts.flatMap todoW
+
+/-- a writer excludes everybody else -/
+def Excl (ts : List (TS σ)) : Prop :=
+  ∀ (i j : Nat) (ti tj : TS σ), i ≠ j → ts[i]? = some ti → ts[j]? = some tj → ti.isWriting = true → tj.isIdle = true
+
+structure Inv (x0 : σ) (s : State σ) : Prop where
+  excl : Excl s.ts
+  /-- finishing the write in progress yields the value of the whole write log -/
+  value : applyAll (pend s.ts) s.val = runWrites s.wlog.reverse x0
+  /-- every value read is the value after some prefix of the write log, i.e. after complete writes -/
+  reads : ∀ e ∈ s.obs, ∃ k, k ≤ s.wlog.length ∧ e.2 = runWrites (s.wlog.reverse.take k) x0
+
+theorem ts_set_ne {ts : List (TS σ)} {i j : Nat} {t : TS σ} (h : i ≠ j) : (ts.set i t)[j]? = ts[j]? := by
+  rw [List.getElem?_set]; simp [h]
+
+theorem ts_set_self {ts : List (TS σ)} {i : Nat} {t t0 : TS σ} (h : ts[i]? = some t0) :
+    (ts.set i t)[i]? = some t := by
+  have hlt : i < ts.length := by
+    rcases Nat.lt_or_ge i ts.length with h' | h'
+    · exact h'
+    · rw [List.getElem?_eq_none h'] at h; cases h
+  rw [List.getElem?_set]; simp [hlt]
+
+theorem pend_none {ts : List (TS σ)} (h : ∀ t ∈ ts, t.isWriting = false) : pend ts = [] := by
+  induction ts with
+  | nil => rfl
+  | cons t ts ih =>
+    have ht := h t (by simp)
+    have : todoW t = [] := by cases t <;> simp_all [todoW, TS.isWriting]
+    simp [pend, this]
+    intro u hu
+    have := h u (by simp [hu])
+    cases u <;> simp_all [todoW, TS.isWriting]
+
+theorem pend_one {ts : List (TS σ)} {i : Nat} {t : TS σ} (hi : ts[i]? = some t)
+    (h : ∀ (j : Nat) (tj : TS σ), ts[j]? = some tj → j ≠ i → tj.isWriting = false) : pend ts = todoW t := by
+  induction ts generalizing i with
+  | nil => simp at hi
+  | cons t0 ts ih =>
+    cases i with
+    | zero =>
+      simp at hi; subst hi
+      have : pend ts = [] := pend_none (fun u hu => by
+        rcases List.getElem?_of_mem hu with ⟨k, hk⟩
+        exact h (k + 1) u (by simpa using hk) (by omega))
+      show todoW t0 ++ pend ts = todoW t0
+      rw [this]; simp
+    | succ k =>
+      have h0 : t0.isWriting = false := h 0 t0 (by simp) (by omega)
+      have : todoW t0 = [] := by cases t0 <;> simp_all [todoW, TS.isWriting]
+      show todoW t0 ++ pend ts = todoW t
+      rw [this]
+      simp
+      exact ih (i := k) (by simpa using hi) (fun j tj hj hne => h (j + 1) tj (by simpa using hj) (by omega))
+
+theorem all_of_getElem {ts : List (TS σ)} {p : TS σ → Bool} (h : ts.all p = true) {j : Nat} {t : TS σ}
+    (hj : ts[j]? = some t) : p t = true := by
+  rw [List.all_eq_true] at h
+  exact h t (List.mem_of_getElem? hj)
+
+theorem idle_not_writing {t : TS σ} (h : t.isIdle = true) : t.isWriting = false := by
+  cases t <;> simp_all [TS.isIdle, TS.isWriting]
+
+theorem runWrites_snoc (ws : List (List (σ → σ))) (b : List (σ → σ)) (x : σ) :
+    runWrites (ws ++ [b]) x = applyAll b (runWrites ws x) := by
+  simp [runWrites, List.foldl_append]
+
+/-- replacing thread `i` by a non-writing state keeps `Excl` when … -/
+theorem excl_set_nonwriter {ts : List (TS σ)} {i : Nat} {t t' : TS σ} (he : Excl ts) (hi : ts[i]? = some t)
+    (hnw : t'.isWriting = false) (hidle : t'.isIdle = false → ∀ (j : Nat) (tj : TS σ), ts[j]? = some tj → tj.isWriting = false) :
+    Excl (ts.set i t') := by
+  intro a b ta tb hab ha hb hwa
+  by_cases hai : i = a
+  · subst hai
+    rw [ts_set_self hi] at ha; cases ha
+    rw [hnw] at hwa; cases hwa
+  · rw [ts_set_ne hai] at ha
+    by_cases hbi : i = b
+    · subst hbi
+      rw [ts_set_self hi] at hb; cases hb
+      cases hidl : t'.isIdle with
+      | true => rfl
+      | false =>
+        have := hidle hidl a ta ha
+        rw [this] at hwa; cases hwa
+    · rw [ts_set_ne hbi] at hb
+      exact he a b ta tb hab ha hb hwa
+
+theorem inv_step {x0 : σ} {s s1 : State σ} {i : Nat} (hinv : Inv x0 s) (h : step s i = some s1) : Inv x0 s1 := by
+  unfold step at h
+  split at h
+  · -- Lock
+    rename_i body rest hi
+    split at h
+    · rename_i hall
+      cases h
+      have hidle : ∀ (j : Nat) (tj : TS σ), s.ts[j]? = some tj → tj.isIdle = true := fun j tj hj => all_of_getElem hall hj
+      have hp0 : pend s.ts = [] := pend_none (fun t ht => by
+        rcases List.getElem?_of_mem ht with ⟨k, hk⟩; exact idle_not_writing (hidle k t hk))
+      have hp1 : pend (s.ts.set i (.writing body rest)) = body := by
+        rw [pend_one (ts_set_self hi) (fun j tj hj hne => by
+          rw [ts_set_ne (Ne.symm hne)] at hj; exact idle_not_writing (hidle j tj hj))]
+        rfl
+      refine ⟨?_, ?_, ?_⟩
+      · intro a b ta tb hab ha hb hwa
+        by_cases hbi : i = b
+        · subst hbi
+          have hai : i ≠ a := fun e => hab e.symm
+          rw [ts_set_ne hai] at ha
+          have := idle_not_writing (hidle a ta ha)
+          rw [this] at hwa; cases hwa
+        · rw [ts_set_ne hbi] at hb; exact hidle b tb hb
+      · show applyAll (pend (s.ts.set i (.writing body rest))) s.val = runWrites (body :: s.wlog).reverse x0
+        rw [hp1, List.reverse_cons, runWrites_snoc, ← hinv.value, hp0]
+        rfl
+      · intro e he
+        rcases hinv.reads e he with ⟨k, hk, hek⟩
+        refine ⟨k, by simp; omega, ?_⟩
+        rw [hek, List.reverse_cons, List.take_append_of_le_length (by simpa using hk)]
+    · cases h
+  · -- RLock
+    rename_i rest hi
+    split at h
+    · rename_i hall
+      cases h
+      have hnw : ∀ (j : Nat) (tj : TS σ), s.ts[j]? = some tj → tj.isWriting = false := fun j tj hj => by
+        have := all_of_getElem hall hj; simpa using this
+      refine ⟨excl_set_nonwriter hinv.excl hi rfl (fun _ => hnw), ?_, hinv.reads⟩
+      show applyAll (pend (s.ts.set i (.reading rest))) s.val = _
+      rw [← hinv.value]
+      congr 1
+      rw [pend_none (fun t ht => by
+        rcases List.getElem?_of_mem ht with ⟨k, hk⟩
+        by_cases hki : i = k
+        · subst hki; rw [ts_set_self hi] at hk; cases hk; rfl
+        · rw [ts_set_ne hki] at hk; exact hnw k t hk)]
+      rw [pend_none (fun t ht => by
+        rcases List.getElem?_of_mem ht with ⟨k, hk⟩; exact hnw k t hk)]
+    · cases h
+  · -- one update of the writer
+    rename_i f todo rest hi
+    cases h
+    have hothers : ∀ (j : Nat) (tj : TS σ), s.ts[j]? = some tj → j ≠ i → tj.isWriting = false := fun j tj hj hne =>
+      idle_not_writing (hinv.excl i j _ tj (Ne.symm hne) hi hj rfl)
+    refine ⟨?_, ?_, hinv.reads⟩
+    · intro a b ta tb hab ha hb hwa
+      by_cases hai : i = a
+      · subst hai
+        rw [ts_set_ne hab] at hb
+        exact hinv.excl i b _ tb hab hi hb rfl
+      · rw [ts_set_ne hai] at ha
+        have := hothers a ta ha (Ne.symm hai)
+        rw [this] at hwa; cases hwa
+    · show applyAll (pend (s.ts.set i (.writing todo rest))) (f s.val) = _
+      rw [← hinv.value, pend_one hi hothers]
+      rw [pend_one (ts_set_self hi) (fun j tj hj hne => by
+        rw [ts_set_ne (Ne.symm hne)] at hj; exact hothers j tj hj hne)]
+      rfl
+  · -- Unlock
+    rename_i rest hi
+    cases h
+    have hothers : ∀ (j : Nat) (tj : TS σ), s.ts[j]? = some tj → j ≠ i → tj.isWriting = false := fun j tj hj hne =>
+      idle_not_writing (hinv.excl i j _ tj (Ne.symm hne) hi hj rfl)
+    refine ⟨excl_set_nonwriter hinv.excl hi rfl (fun h => by simp [TS.isIdle] at h), ?_, hinv.reads⟩
+    show applyAll (pend (s.ts.set i (.idle rest))) s.val = _
+    rw [← hinv.value, pend_one hi hothers]
+    rw [pend_one (ts_set_self hi) (fun j tj hj hne => by
+      rw [ts_set_ne (Ne.symm hne)] at hj; exact hothers j tj hj hne)]
+    rfl
+  · -- the read itself
+    rename_i rest hi
+    cases h
+    have hnw : ∀ (j : Nat) (tj : TS σ), s.ts[j]? = some tj → tj.isWriting = false := fun j tj hj => by
+      by_cases hji : j = i
+      · subst hji; rw [hi] at hj; cases hj; rfl
+      · cases hw : tj.isWriting with
+        | false => rfl
+        | true =>
+          have := hinv.excl j i tj _ hji hj hi hw
+          simp [TS.isIdle] at this
+    have hp : pend s.ts = [] := pend_none (fun t ht => by
+      rcases List.getElem?_of_mem ht with ⟨k, hk⟩; exact hnw k t hk)
+    refine ⟨excl_set_nonwriter hinv.excl hi rfl (fun _ => hnw), ?_, ?_⟩
+    · show applyAll (pend (s.ts.set i (.readDone rest))) s.val = _
+      rw [← hinv.value, hp]
+      rw [pend_none (fun t ht => by
+        rcases List.getElem?_of_mem ht with ⟨k, hk⟩
+        by_cases hki : i = k
+        · subst hki; rw [ts_set_self hi] at hk; cases hk; rfl
+        · rw [ts_set_ne hki] at hk; exact hnw k t hk)]
+    · intro e he
+      simp only [List.mem_cons] at he
+      rcases he with rfl | he
+      · refine ⟨s.wlog.length, Nat.le_refl _, ?_⟩
+        have := hinv.value
+        rw [hp] at this
+        simp only [applyAll, List.foldl_nil] at this
+        rw [← List.length_reverse, List.take_length]
+        exact this
+      · exact hinv.reads e he
+  · -- RUnlock
+    rename_i rest hi
+    cases h
+    have hnw : ∀ (j : Nat) (tj : TS σ), s.ts[j]? = some tj → tj.isWriting = false := fun j tj hj => by
+      by_cases hji : j = i
+      · subst hji; rw [hi] at hj; cases hj; rfl
+      · cases hw : tj.isWriting with
+        | false => rfl
+        | true =>
+          have := hinv.excl j i tj _ hji hj hi hw
+          simp [TS.isIdle] at this
+    refine ⟨excl_set_nonwriter hinv.excl hi rfl (fun _ => hnw), ?_, hinv.reads⟩
+    show applyAll (pend (s.ts.set i (.idle rest))) s.val = _
+    rw [← hinv.value]
+    congr 1
+    rw [pend_none (fun t ht => by
+      rcases List.getElem?_of_mem ht with ⟨k, hk⟩
+      by_cases hki : i = k
+      · subst hki; rw [ts_set_self hi] at hk; cases hk; rfl
+      · rw [ts_set_ne hki] at hk; exact hnw k t hk)]
+    rw [pend_none (fun t ht => by
+      rcases List.getElem?_of_mem ht with ⟨k, hk⟩; exact hnw k t hk)]
+  · cases h
+
+theorem inv_start (x0 : σ) (prog : List (List (Op σ))) : Inv x0 (start x0 prog) := by
+  refine ⟨?_, ?_, ?_⟩
+  · intro i j ti tj _ hi _ hw
+    simp [start] at hi
+    rcases hi with ⟨_, _, rfl⟩
+    simp [TS.isWriting] at hw
+  · have : pend (start x0 prog).ts = [] := pend_none (fun t ht => by
+      simp [start] at ht
+      rcases ht with ⟨_, _, rfl⟩; rfl)
+    rw [this]; rfl
+  · intro e he; simp [start] at he
+
+theorem inv_exec {x0 : σ} {sched : List Nat} {s s' : State σ} (hinv : Inv x0 s) (h : exec s sched = some s') :
+    Inv x0 s' := by
+  induction sched generalizing s with
+  | nil => simp [exec] at h; subst h; exact hinv
+  | cons i is ih =>
+    unfold exec at h
+    split at h
+    · cases h
+    · rename_i s1 hs
+      exact ih (inv_step hinv hs) h
+
+theorem pend_terminated {s : State σ} (h : s.terminated = true) : pend s.ts = [] := by
+  apply pend_none
+  intro t ht
+  unfold State.terminated at h
+  rw [List.all_eq_true] at h
+  have := h t ht
+  cases t <;> simp_all [TS.finished, TS.isWriting]
+
+end RW
+
 end PV.Conc
